@@ -965,7 +965,7 @@ func (vm *VM) handleThrownError(frame *frame, err *RuntimeError) error {
 		vm.ip = handler.finally - 1
 	} else {
 		frame.errHandlers.pop()
-		return vm.throw(err, false)
+		return vm.throw(err, true)
 	}
 
 	if vm.sp >= handler.sp {
